@@ -199,8 +199,9 @@ class FX:
             return self._events[fn.key]
         evs = []
         vp = self.vp
+        live = fn.cfg.reach
         for bi, b in enumerate(fn.blocks):
-            if b["cleanup"]:
+            if b["cleanup"] or bi not in live:
                 continue
             for si, s in enumerate(b["stmts"]):
                 if s["k"] != "assign":
